@@ -24,6 +24,7 @@ enum Step {
     Exists(Vec<String>),
     Del(Vec<String>),
     Keys(String),
+    Scan(Option<String>),
     DbSize,
     Append(String, String),
     StrLen(String),
@@ -49,6 +50,7 @@ fn show_step(s: &Step) -> String {
         Step::Exists(k) => format!("execute(EXISTS {})", k.iter().map(|k| short(k)).collect::<Vec<_>>().join(",")),
         Step::Del(k) => format!("execute(DEL {})", k.iter().map(|k| short(k)).collect::<Vec<_>>().join(",")),
         Step::Keys(p) => format!("execute(KEYS {})", short(p)),
+        Step::Scan(p) => format!("execute(SCAN 0{} COUNT 100000)", p.as_ref().map(|p| format!(" MATCH {}", short(p))).unwrap_or_default()),
         Step::DbSize => "execute(DBSIZE)".to_string(),
         Step::Append(k, v) => format!("execute(APPEND {} {})", short(k), short(v)),
         Step::StrLen(k) => format!("execute(STRLEN {})", short(k)),
@@ -88,6 +90,11 @@ async fn run_step(st: &ShardedActorState, s: &Step) -> String {
         Step::Del(ks) => show_resp(&st.execute(&Command::Del(ks.clone())).await),
         Step::Keys(p) => match st.execute(&Command::Keys(p.clone())).await {
             RespValue::Array(Some(items)) => { let mut v: Vec<String> = items.iter().map(show_resp).collect(); v.sort(); format!("keys{:?}", v) }
+            other => show_resp(&other),
+        },
+        // SCAN with a COUNT above the keyspace size completes in one call: [cursor 0, every (matching) key once], order free
+        Step::Scan(p) => match st.execute(&Command::Scan { cursor: 0, pattern: p.clone(), count: Some(100_000) }).await {
+            RespValue::Array(Some(parts)) if parts.len() == 2 => { let cur = show_resp(&parts[0]); match &parts[1] { RespValue::Array(Some(items)) => { let mut v: Vec<String> = items.iter().map(show_resp).collect(); v.sort(); format!("scan(cursor {}){:?}", cur, v) } other => show_resp(other) } }
             other => show_resp(&other),
         },
         Step::DbSize => show_resp(&st.execute(&Command::DbSize).await),
@@ -239,7 +246,8 @@ fn structured_session(keys: &[String]) -> Vec<Step> {
     for (i, k) in keys.iter().enumerate() { if i % 3 == 0 { s.push(Step::Append(k.clone(), "+".into())); s.push(Step::FastGet(k.clone())); } }
     s.push(Step::Del(vec!["user:1".into(), "item:b".into(), "k5".into(), "nosuchkey".into()]));
     s.push(Step::Del(vec!["k7".into()]));
-    for p in ["user:[12]", "item:[a-c]", "k[0-9]", "*"] { s.push(Step::Keys(p.to_string())); }
+    for p in ["user:[12]", "item:[a-c]", "k[0-9]", "*"] { s.push(Step::Keys(p.to_string())); s.push(Step::Scan(Some(p.to_string()))); }
+    s.push(Step::Scan(None));
     s.push(Step::DbSize);
     for k in keys { s.push(Step::TypeOf(k.clone())); }
     s
@@ -286,7 +294,8 @@ fn random_session(rng: &mut Rng, pool: &[String]) -> Vec<Step> {
             11 => Step::MGet(some(rng)),
             12 => Step::Exists(some(rng)),
             13 => Step::Del(some(rng)),
-            14 | 15 | 16 => Step::Keys(random_pattern(rng, &keys)),
+            14 | 15 => Step::Keys(random_pattern(rng, &keys)),
+            16 => if rng.chance(1, 3) { Step::Scan(None) } else { Step::Scan(Some(random_pattern(rng, &keys))) },
             17 => Step::DbSize,
             18 => Step::Append(k, v),
             _ => Step::StrLen(k),
